@@ -167,8 +167,13 @@ def finish(ctx: Ctx, *, level="other", explanation="", trusted_base=(), assumpti
                                   for f in new]}, open(replay, "w"), indent=1)
         for f in new:
             print(f"   {f}")
-        print(f"VIOLATION property={ctx.prop} replay={replay}")
-        code = 1
+        if ctx.errors and os.environ.get("FV_ERRORS_DOMINATE", "0") == "1":
+            # part of the code could not be analysed (un-enumerated idiom, vanished anchor): contradictions derived next to such a gap are not
+            # reliable enough to raise an alarm -- the run is reported as analysis-broken (exit 2), with the candidate findings listed above
+            print(f"   ({len(new)} candidate finding(s) above are NOT reported as violations: the analysis is incomplete)")
+        else:
+            print(f"VIOLATION property={ctx.prop} replay={replay}")
+            code = 1
     if ctx.tier == "thorough" and code == 0 and os.environ.get("FV_SELFTEST", "1") != "0":
         from . import selftest
         results, problems = selftest.run(ctx)
